@@ -27,6 +27,7 @@ import Mathlib.Tactic.Positivity
 import Mathlib.Tactic.NormNum
 import Mathlib.Algebra.Order.Field.Rat
 import Tdgl.Geometry
+import Tdgl.Props.C07
 
 open Tdgl
 
@@ -121,6 +122,36 @@ theorem C07_kite_piece (A B C : Pt K) (h1 : triArea2 A B C ≠ 0) (h2 : (2 : K) 
   simp only [triArea2, dist2, mid]
   field_simp
   ring
+
+/-- The other half of the kite of `A`, on the edge `CA` (offset of the same circumcentre seen from `(C, A, B)`). -/
+theorem C07_kite_piece' (A B C : Pt K) (h1 : triArea2 A B C ≠ 0) (h2 : (2 : K) ≠ 0) :
+    triArea2 A (circumcentre A B C) (mid A C) = ccOffset C A B * dist2 C A / 2 := by
+  have hc : triArea2 C A B ≠ 0 := by
+    have : triArea2 C A B = triArea2 A B C := by simp only [triArea2]; ring
+    rwa [this]
+  have hb : triArea2 B C A ≠ 0 := by
+    have : triArea2 B C A = triArea2 A B C := by simp only [triArea2]; ring
+    rwa [this]
+  have cyc : circumcentre A B C = circumcentre C A B := by
+    rw [C07_circumcentre_cyclic A B C h1 h2, C07_circumcentre_cyclic B C A hb h2]
+  obtain ⟨e1, e2⟩ := C07_circumcentre_offset C A B hc h2
+  rw [cyc]
+  generalize circumcentre C A B = O at e1 e2 ⊢
+  generalize ccOffset C A B = s at e1 e2 ⊢
+  obtain ⟨O1, O2⟩ := O
+  simp only at e1 e2
+  subst e1 e2
+  simp only [triArea2, dist2, mid]
+  field_simp
+  ring
+
+/-- **Finite-volume area identity.**  The (doubled) kite of `A` in `(A, B, C)` is half of `Σ |edge|² · offset` over the
+    two edges at `A`: summed over the triangles at a site, the cell area is `¼ Σ_edges |e| · (signed dual length)`. -/
+theorem C07_kite_from_offsets (A B C : Pt K) (h1 : triArea2 A B C ≠ 0) (h2 : (2 : K) ≠ 0) :
+    kite2 A B C = (ccOffset A B C * dist2 A B + ccOffset C A B * dist2 C A) / 2 := by
+  simp only [kite2]
+  rw [C07_kite_piece A B C h1 h2, C07_kite_piece' A B C h1 h2]
+  field_simp
 
 end field
 
